@@ -495,14 +495,14 @@ def r5_snapshot_spans_all_directories(repo=None):
     return r
 
 
-def r6_capsule_has_one_owner(repo=None):
+def r6_capsule_has_one_owner(repo=None, rid="C09.R6"):
     """'once the writer is closed the reader sees everything': close() publishes the last file by deleting the attribute that
     holds the extension's writer object - the object's destructor closes and renames the file, and it runs only when that was
     the *last* reference.  So the object may be read only as a direct argument of an extension call (borrowed for the call,
     C frames are not part of a traceback), tested, or deleted.  A second reference in a local that is alive across a call or a
     raise survives in the traceback of an exception the caller still holds: close() then returns with the last file still
     named tmp.* and no reader sees its samples."""
-    r = Rule("C09.R6", "the extension's writer object has one reference (the attribute close() deletes): no alias alive across a call")
+    r = Rule(rid, "the extension's writer object has one reference (the attribute close() deletes): no alias alive across a call")
     m = pyfront.mod("digital_rf_hdf5", repo)
     cls = [c for c in m.tree.body if isinstance(c, ast.ClassDef) and c.name == "DigitalRFWriter"]
     if not cls:
@@ -600,6 +600,14 @@ def r6_capsule_has_one_owner(repo=None):
     for n in ast.walk(cls):
         if isinstance(n, ast.Attribute) and isinstance(n.ctx, ast.Load) and pyfront.dotted(n) == "self." + attr:
             judge(n, "self.%s" % attr)
+        # the same read spelled getattr(self, "<attr>"[, default])
+        elif isinstance(n, ast.Call) and pyfront.call_name(n) == "getattr" and len(n.args) >= 2 and pyfront.dotted(n.args[0]) == "self" \
+                and isinstance(n.args[1], ast.Constant) and n.args[1].value == attr:
+            judge(n, "getattr(self, %r)" % attr)
+        elif isinstance(n, ast.Constant) and n.value == attr and not (isinstance(parent.get(n), ast.Call) and pyfront.call_name(parent[n]) in (
+                "getattr", "hasattr", "delattr")):
+            raise AnalysisError("DigitalRFWriter: the attribute name %r is used as a string in `%s`: how the writer object is reached there "
+                                "is not decided" % (attr, norm(ast.unparse(parent.get(n, n)))[:70]))
     r.guard(5)
     return r
 
@@ -693,8 +701,78 @@ def r7_first_sample_before_last(repo=None):
     return r
 
 
+def r8_every_candidate_is_probed_on_every_read(repo=None):
+    """'visibility only grows': a file that is not there yet when one read looks for it is there for a later read.  The reader
+    decides which candidate files exist by probing them (os.access) in `_read`; every candidate of the window must be probed on
+    every read.  A path through the probing loop that reaches the next candidate without passing the probe, under a condition
+    that reads state of the reader object (a set of names remembered as "gaps"), makes an absence observed once permanent for that
+    reader object - files finished later are never read, although a fresh reader reads them."""
+    r = Rule("C09.R8", "the presence probe of _read is passed for every candidate on every read (no skip that depends on what an earlier read saw)")
+    m = pyfront.mod("digital_rf_hdf5", repo)
+    q = TL + "._read"
+    fv = m.flat(q)
+    f = fv.fn()
+    g = fv.cfg()
+    n = 0
+    probes = [nd for nd in g.nodes if nd.ast is not None and any(pyfront.call_name(c) == "os.access" for c in pyfront.node_calls(nd))]
+    if not probes:
+        raise AnalysisError("%s: no os.access probe found" % q)
+    par = {}
+    for x in ast.walk(f):
+        for ch in ast.iter_child_nodes(x):
+            par[ch] = x
+    for pn in probes:
+        calls = [c for c in pyfront.node_calls(pn) if pyfront.call_name(c) == "os.access"]
+        c = calls[0]
+        # comprehension form: `[p for p in candidates if os.access(p, R_OK)]` - other filters of the same generator
+        comp = par.get(c)
+        while comp is not None and not isinstance(comp, (ast.comprehension, ast.For, ast.FunctionDef)):
+            comp = par.get(comp)
+        site = "%s:%s %s `%s`" % (m.rel, c.lineno, q, norm(ast.unparse(c))[:50])
+        if isinstance(comp, ast.comprehension):
+            others = [t for t in comp.ifs if not any(y is c for y in ast.walk(t))]
+            bad = [t for t in others if any(isinstance(y, ast.Attribute) and pyfront.dotted(y.value) == "self" for y in ast.walk(t))]
+            n += 1
+            if bad:
+                r.violation(m.rel, q, norm(ast.unparse(bad[0]))[:80], "a candidate file is left out of the presence probe under a condition on the "
+                            "reader's own state: an absence remembered from an earlier read hides a file that was finished since", line=c.lineno)
+            elif others:
+                raise AnalysisError("%s: the probing comprehension has another filter `%s`: not decided" % (q, norm(ast.unparse(others[0]))[:60]))
+            else:
+                r.ok(site, "the only filter of the probing comprehension")
+            continue
+        lp = comp if isinstance(comp, ast.For) else None
+        if lp is None:
+            raise AnalysisError("%s: the os.access probe at line %s is not inside a loop over the candidates" % (q, c.lineno))
+        heads = [nd for nd in g.nodes if nd.kind == "cond" and nd.ast is lp]
+        if len(heads) != 1:
+            raise AnalysisError("%s: loop head of the probing loop not found on the CFG" % q)
+        head = heads[0]
+        starts = [b for b, l in g.succ[head.id] if l == "T"]
+        reach = g.reach(starts, avoid=[pn.id, head.id], skip_labels=("exc",))
+        bypass = any(head.id in [b for b, l in g.succ[x] if l != "exc"] for x in reach)
+        n += 1
+        if not bypass:
+            r.ok(site, "every path through the body of the candidate loop passes the probe")
+            continue
+        # the conditions that let an iteration end without the probe
+        guards = [g.nodes[x] for x in reach if g.nodes[x].kind == "cond" and g.nodes[x].ast is not None and not isinstance(g.nodes[x].ast, (ast.For, ast.While))]
+        state = [gd for gd in guards if any(isinstance(y, ast.Attribute) and pyfront.dotted(y.value) == "self" for y in ast.walk(gd.ast))]
+        if state:
+            r.violation(m.rel, q, norm(ast.unparse(state[0].ast))[:80], "an iteration of the candidate loop can end without the os.access probe "
+                        "under a condition on the reader's own state: a file found absent once (not finished yet) is never looked for "
+                        "again by this reader object - what it returns stops growing while the recording goes on", line=state[0].line)
+        else:
+            raise AnalysisError("%s: an iteration of the candidate loop can end without the probe (%s): not decided" % (
+                q, "; ".join(norm(ast.unparse(gd.ast))[:40] for gd in guards[:2]) or "no condition found"))
+    if n < 1:
+        raise AnalysisError("%s: no probing site judged" % q)
+    r.guard(1)
+    return r
+
+
 def rules(repo=None):
-    return [lambda: r7_first_sample_before_last(repo), lambda: r5_snapshot_spans_all_directories(repo), lambda: r6_capsule_has_one_owner(repo), _rebrand(lambda: c02.r1_tmp_provenance(repo), "C09.P1"), _rebrand(lambda: c02.r2_publish_after_close(repo), "C09.P2"),
+    return [lambda: r8_every_candidate_is_probed_on_every_read(repo), lambda: r7_first_sample_before_last(repo), lambda: r5_snapshot_spans_all_directories(repo), lambda: r6_capsule_has_one_owner(repo), _rebrand(lambda: c02.r1_tmp_provenance(repo), "C09.P1"), _rebrand(lambda: c02.r2_publish_after_close(repo), "C09.P2"),
             _rebrand(lambda: c02.r3_no_writer_of_final(repo), "C09.P3"), _rebrand(lambda: c02.r4_staged_creation(repo), "C09.P4"),
             _rebrand(lambda: c02.r5_readers_ignore_tmp(repo), "C09.P5"),
             _rebrand(lambda: c02.r6_identity_stable_until_published(repo), "C09.P6"),
